@@ -493,6 +493,17 @@ def Db.onAcc (s : Db V P) (aid : Nat) (f : Accessory V P → Option (Accessory V
       | none => (s, .keyError)
       | some (a', r) => (s.setBridged aid a', r)
 
+/-- The repaired `IIDManager.assign / remove_obj / remove_iid` drop the cached representations
+    of the object whose iid changes (a characteristic's cached `to_HAP` dict contains its iid).
+    The code does so only when the maps really change; dropping a valid cache is not observable,
+    so the model drops unconditionally.  An object that is no characteristic of this accessory's
+    structure has no rendering under this manager: nothing to drop. -/
+def Accessory.forget (a : Accessory V P) (o : Nat) : Accessory V P := a.modChar o Char.clearCache
+
+def Accessory.forget? (a : Accessory V P) : Option Nat → Accessory V P
+  | none => a
+  | some o => a.forget o
+
 inductive Op (V P : Type) where
   /-- `acc.add_service(<fresh service>)` on accessory `aid` -/
   | addService (aid : Nat) (d : SvcDef V P)
@@ -511,15 +522,31 @@ def Db.step (s : Db V P) : Op V P → Db V P × Res
     | (_, r) => (s, r)
   | .addAccessory aid cb defs => s.addAccessory aid cb defs
   | .removeAccessory aid => (s.removeAccessory aid, .ok none)
-  | .assign aid o => s.onAcc aid (fun a => some ({ a with iidm := a.iidm.assign o }, .ok none))
+  | .assign aid o =>
+    s.onAcc aid (fun a => some (({ a with iidm := a.iidm.assign o } : Accessory V P).forget o, .ok none))
   | .removeObj aid o =>
-    s.onAcc aid (fun a => (a.iidm.removeObj o).map (fun mr => ({ a with iidm := mr.1 }, .ok mr.2)))
+    s.onAcc aid (fun a => (a.iidm.removeObj o).map
+      (fun mr => (({ a with iidm := mr.1 } : Accessory V P).forget o, .ok mr.2)))
   | .removeIid aid i =>
-    s.onAcc aid (fun a => (a.iidm.removeIid i).map (fun mr => ({ a with iidm := mr.1 }, .ok mr.2)))
+    s.onAcc aid (fun a => (a.iidm.removeIid i).map
+      (fun mr => (({ a with iidm := mr.1 } : Accessory V P).forget? mr.2, .ok mr.2)))
 
 def Db.run (s : Db V P) : List (Op V P) → Db V P
   | [] => s
   | op :: rest => Db.run (s.step op).1 rest
+
+/-- construction histories with reads in between: GET /accessories through the caches -/
+inductive Op17 (V P : Type) where
+  | con (op : Op V P)
+  | read (incl : Bool) (g : Nat → Option V)
+
+def Db.step17 (s : Db V P) : Op17 V P → Db V P
+  | .con op => (s.step op).1
+  | .read incl g => (s.renderCached incl g).2
+
+def Db.run17 (s : Db V P) : List (Op17 V P) → Db V P
+  | [] => s
+  | op :: rest => Db.run17 (s.step17 op) rest
 
 /-- the driver's top-level accessory right after construction: `defs` are its services
     (`AccessoryInformation`, `HAPProtocolInformation`, then the application's) -/
